@@ -3,8 +3,9 @@
 set -e
 cd "$(dirname "$0")/.."
 rm -rf build/extract && mkdir -p build/extract
+python3 tools/gen_shared.py build/extract
 cd build/extract
-timeout 600 coqc -Q ../../coq Tinode ../../coq/Extract/Extract.v > extract.log 2>&1 || { cat extract.log; exit 1; }
+timeout 900 coqc -Q ../../coq Tinode Extract.v > extract.log 2>&1 || { cat extract.log; exit 1; }
 cp ../../harness/runner/*.ml .
 files=$(ocamlfind ocamldep -sort *.mli *.ml)
 timeout 900 ocamlfind ocamlopt -w -a -o ../runner $files > ocaml.log 2>&1 || { cat ocaml.log; exit 1; }
